@@ -298,6 +298,15 @@ def part_assumptions(ctx, n):
                  for c, objs in terms]
         # the declared symmetry must not contradict a flag that is already set on the object
         terms = [(c, [(o[0], o[1], o[2], o[3], 0 if o[0] in ("asym", "sym", "ampl") else o[4]) for o in objs]) for c, objs in terms]
+        # powers of one tensor object (the assumption has to act on base and exponent): repeat one object 2 or 3 times
+        forced = None
+        if rng.random() < 0.35:
+            c0, objs0 = terms[0]
+            cands = [o for o in objs0 if o[0] in ("asym", "sym", "ampl") and len(o[2]) == len(o[3])]
+            if cands:
+                o = rng.choice(cands)
+                terms[0] = (c0, list(objs0) + [o] * rng.randint(1, 2))
+                forced = o[1]
         try:
             sy = G.build_expr(terms)
         except Exception:
@@ -307,8 +316,10 @@ def part_assumptions(ctx, n):
             continue
         real = rng.random() < 0.5
         names = sorted({o[1] for _, objs in terms for o in objs if o[0] in ("asym", "sym", "ampl")})
-        symt = [nm for nm in names if rng.random() < 0.3]
-        asymt = [nm for nm in names if nm not in symt and rng.random() < 0.2 and nm not in ("f", "V")]
+        symt = [nm for nm in names if rng.random() < (0.5 if nm == forced else 0.3)]
+        asymt = [nm for nm in names if nm not in symt and rng.random() < (0.8 if nm == forced else 0.2) and nm not in ("f", "V")]
+        if forced is not None:
+            ctx.count("assumption_cases_with_a_power_of_a_tensor")
         allidx = sorted({i for _, objs in terms for o in objs for i in (o[2] + o[3])})
         tgt = [G.sym_idx(i) for i in rng.sample(allidx, rng.randint(0, min(4, len(allidx))))]
         plain = Expr(sy, target_idx=tgt)
